@@ -15,8 +15,8 @@
                     ignored; missing field: Option -> None, `default` -> default value, else error)
                  :: visit_seq   (positional; missing element -> `default` or invalid-length error;
                     surplus elements -> error)
-     serde :: private/de.rs :: TaggedContentVisitor (internally tagged: tag must be a string naming a
-                    variant, may appear anywhere, twice = error; unit variants ignore all other keys)
+     serde :: private/de.rs :: TaggedContentVisitor (internally tagged: tag is a string naming a variant or an
+                    unsigned variant index when the enum is read from buffered content, may appear anywhere, twice = error; unit variants ignore all other keys)
                  :: ContentRefDeserializer (untagged: variants tried in declaration order, first success)
      serde_json :: de.rs :: number classification (integer literal fitting u64/i64 -> integer, else float),
                     integer fields reject float literals, range checks of i32/i64/usize,
@@ -154,9 +154,21 @@ Fixpoint vindex (s : string) (nss : list (list string)) : option nat :=
   | [] => None
   | ns :: r => if smem s ns then Some 0%nat else option_map S (vindex s r)
   end.
-(* internally tagged: the tag of an object *)
-Definition tag_of (t : string) (j : json) : option (string * list (string * json)) :=
+(* internally tagged: the tag of an object.  The tag value goes to the variant-identifier visitor.  Read directly from
+   the JSON text (serde_json `deserialize_identifier`) it must be a string; read from buffered content (`b = true`: the enum
+   sits inside another internally tagged or untagged enum, whose fields serde buffers as `Content`) an unsigned integer is
+   accepted as well and taken as the variant index (`visit_u64`).  The index is turned into the variant's name here so
+   that the decoders dispatch on names only. *)
+Definition tag_of (b : bool) (t : string) (nss : list (list string)) (j : json) : option (string * list (string * json)) :=
   match j with
-  | JObj kv => match get [t] kv with Once (JStr s) => Some (s, kv) | _ => None end
+  | JObj kv =>
+      match get [t] kv with
+      | Once (JStr s) => Some (s, kv)
+      | Once (JInt z) =>
+          if b && Z.leb 0 z then
+            match nth_error nss (Z.to_nat z) with Some (n :: _) => Some (n, kv) | _ => None end
+          else None
+      | _ => None
+      end
   | _ => None
   end.
